@@ -86,6 +86,11 @@ def r2(ctx):
                         what = "global" if render(l) == "self.global" else ("link" if _link(l, field) else render(l))
                         out.add((what, c[0] == "eq"))
                         continue
+                if a[0] == "is" and a[3] and a[3].endswith("::Health") and (render(a[1]) == "self.global" or _link(a[1], field)):
+                    # variant test (`matches!(x, Health::Healthy)`) instead of `x == Health::Healthy`
+                    if a[2] in (frozenset(["Healthy"]), frozenset(["Reconnecting"])):
+                        out.add(("global" if render(a[1]) == "self.global" else "link", a[2] == frozenset(["Healthy"])))
+                        continue
                 if a[0] == "is" and a[2] == frozenset(["None"]) and a[1][0] == "call" and a[1][1].endswith("Iterator::next"):
                     # exhaustion of a loop: must be the for-all loop over every exchange with predicate all_healthy
                     out.add(("all_healthy" if fa and fa[0] in ("ConnectivityStates::exchange_states(self)", "IndexMap::values(self.exchanges)")
@@ -126,6 +131,9 @@ def r3(ctx):
 
     def val(cell):
         def v(a):
+            # `matches!(x, Health::Healthy)` / a match on the value: a variant test instead of `==`
+            if a[0] == "is" and render(a[1]) in ("self.market_data", "self.account"):
+                return ("Healthy" if cell[render(a[1])[5:]] == "healthy" else "Reconnecting") in a[2]
             c = atoms.atom_cmp(a)
             if c and c[0] in ("eq", "ne"):
                 l, r = (c[1], c[2]) if _is_health(c[2], "Healthy") else (c[2], c[1])
@@ -168,9 +176,11 @@ def r4(ctx):
             if common.is_test(ctx.facts, d) or common.is_derived(ctx.facts, o) or kind == "construct":
                 continue
             n += 1
-            rec = ctx.facts.bodies.get(o, {})
-            if not (rec.get("impl_self_adt") == CS and rec.get("name") in fns):
-                bad.append((mir.short(o), kind, sp))
+            # a write inside an un-named private helper is attributed to the functions that call the helper
+            for eo in common.effective_owners(ctx.facts, d):
+                rec = ctx.facts.bodies.get(eo, {})
+                if not (rec.get("impl_self_adt") == CS and rec.get("name") in fns):
+                    bad.append((mir.short(eo), kind, sp))
         ctx.check("%s.%s" % (mir.short(adt).split("::")[-1], fld), not bad,
                   "only the matching connectivity updaters write this health field", got=bad, sites=[x[2] for x in bad], key="writers")
         ctx.floor("writers of %s.%s" % (mir.short(adt).split("::")[-1], fld), n, 2)
